@@ -63,6 +63,49 @@ def _is_log_error(node) -> bool:
     return any(call_name(c) in ("log.error", "log.exception", "log.critical") for c in calls(node.ast))
 
 
+def _length_constraint(test, taken):
+    """(subject text, set of lengths 0..12 allowed) for a test `len(<name>) <op> <small int>` (either operand order) on the given branch"""
+    import operator
+    ops = {ast.Gt: operator.gt, ast.GtE: operator.ge, ast.Lt: operator.lt, ast.LtE: operator.le, ast.Eq: operator.eq, ast.NotEq: operator.ne}
+    t = test
+    if isinstance(t, ast.UnaryOp) and isinstance(t.op, ast.Not):
+        t, taken = t.operand, not taken
+    if not (isinstance(t, ast.Compare) and len(t.ops) == 1 and type(t.ops[0]) in ops):
+        return None
+    l, r = t.left, t.comparators[0]
+    f = ops[type(t.ops[0])]
+
+    def is_len(e):
+        return isinstance(e, ast.Call) and is_name(e.func, "len") and len(e.args) == 1 and isinstance(e.args[0], ast.Name)
+
+    if is_len(l) and isinstance(r, ast.Constant) and isinstance(r.value, int):
+        return norm(l.args[0]), frozenset(n for n in range(13) if f(n, r.value) == taken)
+    if is_len(r) and isinstance(l, ast.Constant) and isinstance(l.value, int):
+        return norm(r.args[0]), frozenset(n for n in range(13) if f(l.value, n) == taken)
+    return None
+
+
+def _contradicting_length_tests(cfg, fn, node):
+    known = {}
+    for g in cfg.dominated_by(node.id, lambda x: x.kind == "assume"):
+        c = _length_constraint(g.ast, bool(g.taken))
+        if c:
+            known[c[0]] = known.get(c[0], frozenset(range(13))) & c[1]
+    out = set()
+    for subj, allowed in known.items():
+        # the list must not be re-bound or grown after the call for the contradiction to hold
+        stores = [x for x in ast.walk(fn) if isinstance(x, ast.Name) and x.id == subj and isinstance(x.ctx, ast.Store)]
+        grows = [c for c in calls(fn) if isinstance(c.func, ast.Attribute) and is_name(c.func.value, subj) and c.func.attr in ("append", "extend", "insert", "pop", "remove", "clear")]
+        if len(stores) != 1 or grows:
+            continue
+        for x in cfg.nodes:
+            if x.kind == "assume":
+                c = _length_constraint(x.ast, bool(x.taken))
+                if c and c[0] == subj and not (c[1] & allowed):
+                    out.add(x.id)
+    return out
+
+
 @SPEC.rule(
     "R26.1",
     "every logged error counts: for each log.error/log.exception in main(), every path through it within its loop "
@@ -113,6 +156,9 @@ def r26_1(ctx, rep):
             start, ends = it.id, [it.id, cfg.exit]
         else:
             start, ends = cfg.entry, [cfg.exit]
+        # branches that cannot be taken after this log call: tests on the length of the same list that contradict the test the call sits under
+        # (`if len(c) > 1: log.error(...)` ... `if len(c) == 1: found = c[0]`)
+        contra = _contradicting_length_tests(cfg, fn, lg)
         before = cfg.path(start, lg.id, avoid=incs - {lg.id}) if start != lg.id else None
         counted_before = before is None
         after_ok = True
@@ -123,19 +169,19 @@ def r26_1(ctx, rep):
         for e in ends:
             reach_all = True
             wit = None
-            if e not in cfg.reachable(lg.id, avoid=incs) or e == lg.id:
+            if e not in cfg.reachable(lg.id, avoid=incs | contra) or e == lg.id:
                 continue
             for v in flags:
                 pol = lambda t, _v=v: _none_test(t, _v)  # noqa: E731
                 full, _ = explore_defs(cfg, v, pol)
-                reach, prev = explore_defs(cfg, v, pol, src=lg.id, src_defs=full.get(lg.id, {cfg.entry}), avoid=incs)
+                reach, prev = explore_defs(cfg, v, pol, src=lg.id, src_defs=full.get(lg.id, {cfg.entry}), avoid=incs | contra)
                 if not reach.get(e):
                     reach_all = False
                     break
                 wit = witness(cfg, prev, e)
             if reach_all:
                 after_ok = False
-                w = wit or cfg.path(lg.id, e, avoid=incs)
+                w = wit or cfg.path(lg.id, e, avoid=incs | contra)
         msg = ""
         for c in calls(lg.ast):
             if call_name(c) in ("log.error", "log.exception") and c.args:
